@@ -374,7 +374,7 @@ package pub
 
 //@ func (*pub.sideEffectActor).InboxForwarding
 //@ params a, c, inboxIRI, activity
-//@ modifies gExists, gOwnsValue, gNCol, nFilter, nCreate, lastCreated, nOwnsYes, gTotal
+//@ modifies gExists, gOwnsValue, gNCol, nFilter, nCreate, lastCreated, nOwnsYes, nOwnsAsked, gTotal
 //@ [C17] at call pub.Database.Exists#1: ghost gExists = $res0 && $res1 == nil
 //@ [C17] at call pub.Database.Exists#1: ghost gOwnsValue = false
 //@ [C17] at call pub.Database.Exists#1: ghost gNCol = 0
@@ -515,8 +515,13 @@ package pub
 
 //@ func (*pub.sideEffectActor).hasInboxForwardingValues
 //@ params a, c, inboxIRI, val, maxDepth, currDepth
-//@ modifies nOwnsYes
+//@ modifies nOwnsYes, nOwnsAsked
 //@ [C17] at call pub.Database.Owns#*: ghost nOwnsYes = nOwnsYes + ($res0 && $res1 == nil ? 1 : 0)
+// every embedded value (in order) is asked about before the next one is looked at: none is skipped (C17_r3seed1:
+// values identified by href only were skipped); which id is asked about is GetId's (id, else href), not re-stated here
+//@ [C17] at call pub.Database.Owns#2: ghost nOwnsAsked = nOwnsAsked + 1
+//@ loop 1 [C17] invariant embedded_values_not_yet_asked_about: nOwnsAsked == old(nOwnsAsked)
+//@ loop 2 [C17] invariant every_embedded_value_so_far_was_asked_about: nOwnsAsked == old(nOwnsAsked) + $ri + 1
 //@ [C17] at call (*pub.sideEffectActor).hasInboxForwardingValues#1: assert each_level_consumes_one_unit_of_depth: $arg5 == currDepth + 1 && $arg4 == maxDepth && $arg2 == inboxIRI
 //@ [C17] ensures depth_limit_respected: maxDepth > 0 && currDepth >= maxDepth ==> !result0 && result1 == nil && eff == old(eff) && appCalls == old(appCalls)
 //@ [C17] ensures true_only_after_the_database_owned_a_value: nOwnsYes >= old(nOwnsYes) && (result0 ==> result1 == nil && nOwnsYes > old(nOwnsYes)) && (!result0 ==> nOwnsYes == old(nOwnsYes))
